@@ -233,6 +233,78 @@ theorem processAll_frame (env : Env σ) (a : Addr) : ∀ (evs : List (Ev σ)) (s
       cases hv : (processOne env st seen e).2.2 <;> simp [penalisedOf, hm]
     rw [ih _ _ h2, processOne_frame env st seen e a h1]
 
+/-! ## frame for the withdraw queue: only records of the convicted validator are touched -/
+
+def recsOf (b : Addr) (q : List WRec) : List WRec := q.filter (fun r => decide (r.validator = b))
+
+theorem wamount_pos_validator {va : Addr} {r : WRec} {a : Acc} (h : 0 < wamount va r a) : r.validator = va := by
+  unfold wamount at h
+  split at h
+  · omega
+  · rename_i hv
+    simp only [ne_eq, not_or, Decidable.not_not] at hv
+    exact hv.1
+
+theorem wloop_frame (va b : Addr) (hb : va ≠ b) : ∀ (q : List WRec) (a : Acc), recsOf b (wloop va q a).1 = recsOf b q
+  | [], a => by simp [wloop]
+  | r :: rs, a => by
+    unfold wloop
+    split
+    · rfl
+    · split
+      · rename_i hp
+        have hv := wamount_pos_validator hp
+        have hne : r.validator ≠ b := by rw [hv]; exact hb
+        simp only [recsOf, List.filter_cons, hne, decide_false, Bool.false_eq_true, if_false]
+        exact wloop_frame va b hb rs _
+      · simp only [recsOf, List.filter_cons]
+        have := wloop_frame va b hb rs a
+        simp only [recsOf] at this
+        rw [this]
+
+theorem doPenalize_queue_frame (cfg : Cfg) (n : Nat) (q : List WRec) (v : Val) (amount : Int) (b : Addr) (hb : v.addr ≠ b) :
+    recsOf b (doPenalize cfg n q v amount).queue = recsOf b q := by
+  unfold doPenalize
+  simp only
+  split
+  · unfold takePenalty
+    simp only
+    exact wloop_frame v.addr b hb q _
+  · rfl
+
+theorem processOne_queue_frame (env : Env σ) (st : St) (seen : List Addr) (e : Ev σ) (a : Addr)
+    (h : ∀ t, (processOne env st seen e).2.2 ≠ .penalised a t) :
+    recsOf a (processOne env st seen e).1.queue = recsOf a st.queue := by
+  rcases processOne_spec env st seen e with ⟨signer, k, v, hacc, heq⟩ | ⟨h1, _, _⟩
+  · rw [heq] at h ⊢
+    have hne : signer.addr ≠ a := by
+      intro hh
+      exact h _ (by rw [hh])
+    have hva := findVal_addr hacc.cur
+    simp only [penalise, penaltyOf]
+    exact doPenalize_queue_frame _ _ _ _ _ _ (by rw [hva]; exact hne)
+  · rw [h1]
+
+theorem processAll_queue_frame (env : Env σ) (a : Addr) : ∀ (evs : List (Ev σ)) (st : St) (seen : List Addr),
+    a ∉ penalisedOf (processAll env st seen evs).verdicts →
+    recsOf a (processAll env st seen evs).st.queue = recsOf a st.queue := by
+  intro evs
+  induction evs with
+  | nil => intro st seen _; simp [processAll]
+  | cons e es ih =>
+    intro st seen h
+    rw [processAll_cons] at h ⊢
+    simp only at h ⊢
+    have h1 : ∀ t, (processOne env st seen e).2.2 ≠ .penalised a t := by
+      intro t ht
+      apply h
+      rw [ht]; simp [penalisedOf]
+    have h2 : a ∉ penalisedOf (processAll env (processOne env st seen e).1 (processOne env st seen e).2.1 es).verdicts := by
+      intro hm
+      apply h
+      cases hv : (processOne env st seen e).2.2 <;> simp [penalisedOf, hm]
+    rw [ih _ _ h2, processOne_queue_frame env st seen e a h1]
+
 /-- in a processed list, whoever is penalised was convicted by some evidence of the list -/
 theorem processAll_penalised_accepts (env : Env σ) : ∀ (evs : List (Ev σ)) (st : St) (seen : List Addr) (a : Addr),
     a ∈ penalisedOf (processAll env st seen evs).verdicts →
